@@ -852,6 +852,11 @@ def gen(rng, tier, prop):
                     ops.append({'op': 'locate', 'r': rng.choice([1, 5, 23, 24, rng.randint(1, 24)]), 'c': c, 'cur': None})
                     k = hint.width - c + 1 + rng.choice([0, 0, 0, -1, 1])
                     op = {'op': 'print', 's': _plain(rng, max(1, k)), 'end': rng.choice([';', ';', ''])}
+                    if rng.random() < 0.5:
+                        # a cursor movement from the edge position, then where does the next character land?
+                        ops.append(op)
+                        ops.append({'op': 'print', 's': rng.choice(['\x1c', '\x1d', '\x1e', '\x1f', '\x1c\x1c', '\x1d\x1c', '\x0b', '\t']), 'end': ';'})
+                        op = {'op': 'land', 'ch': rng.choice(PLAIN)}
                 ops.append(op)
             elif r < 0.42:
                 ops.append(_print_op(rng, hint, dbcs=dbcs))
